@@ -253,6 +253,8 @@ func c19BuildH(sc *c19Scen, history bool) *restful.Container {
 			prev, _ := req.Attribute("trail").(string)
 			req.SetAttribute("trail", prev+name+":"+req.QueryParameter("q")+";")
 			resp.AddHeader("X-Seen-"+name, req.QueryParameter("q"))
+			// the route the filter sees selected: the request's own, or none when routing failed
+			resp.AddHeader("X-Sel-"+name, req.SelectedRoutePath())
 			// a filter may publish a value as a path parameter (the map is handed out by reference): it
 			// belongs to this request alone
 			req.PathParameters()["via-"+name+"-"+req.QueryParameter("q")] = "1"
